@@ -597,8 +597,32 @@ func emit(c *Case) {
 	gen.Emit(c)
 }
 
+// precision factors of the write endpoint: ns, u, ms, s, m, h
+var precFactors = []int64{1, 1000, 1000000, 1000000000, 60000000000, 3600000000000}
+
+func scaleOverflows(ts, mult int64) bool { return ts > math.MaxInt64/mult }
+
 func caseValid(r *gen.Rand, idx int) {
 	p := genPoint(r)
+	mult := int64(1)
+	if r.Chance(1, 3) {
+		mult = precFactors[r.Intn(len(precFactors))]
+		if p.HasTs {
+			// timestamps around the largest one that still fits after scaling, small ones, and arbitrary ones
+			lim := math.MaxInt64 / mult
+			switch r.Intn(4) {
+			case 0:
+				p.Ts = lim + int64(r.Intn(5)) - 2
+			case 1:
+				p.Ts = int64(r.Intn(100000))
+			case 2:
+				p.Ts = lim/2 + int64(r.Uint64()%uint64(lim/2+1)) + int64(r.Intn(3))*(lim/2)
+			}
+			if p.Ts < 0 {
+				p.Ts = 0
+			}
+		}
+	}
 	text := render(r, p)
 	switch r.Intn(8) {
 	case 0:
@@ -606,9 +630,19 @@ func caseValid(r *gen.Rand, idx int) {
 	case 1:
 		text += "\n"
 	}
-	rows, isErr := runImpl([]byte(text), 1)
-	c := &Case{I: idx, Class: "valid", Mult: 1, In: hx(text), Text: text, Err: isErr, Rows: rows, Judged: true, Nontrivial: pointNontrivial(p, text)}
-	if !pointStorable(p) {
+	rows, isErr := runImpl([]byte(text), mult)
+	c := &Case{I: idx, Class: "valid", Mult: mult, In: hx(text), Text: text, Err: isErr, Rows: rows, Judged: true, Nontrivial: pointNontrivial(p, text) || mult != 1}
+	if p.HasTs && scaleOverflows(p.Ts, mult) {
+		// the text is valid, but the instant it denotes under this precision is beyond int64 nanoseconds
+		c.Sub = "timestamp-out-of-range"
+		if !isErr {
+			got := "the server clock"
+			if len(rows) == 1 && rows[0].Ts != nil {
+				got = strconv.FormatInt(*rows[0].Ts, 10)
+			}
+			c.Oracle = append(c.Oracle, OracleFail{"C06-ts-overflow", fmt.Sprintf("timestamp %d with precision factor %d is beyond int64 ns; accepted and stored as %s", p.Ts, mult, got)})
+		}
+	} else if !pointStorable(p) {
 		c.Sub = "float-out-of-range"
 		if !isErr {
 			id := "none"
@@ -624,7 +658,7 @@ func caseValid(r *gen.Rand, idx int) {
 		c.Sub = "valid-refused"
 		c.Judged = false
 	} else {
-		c.Oracle = comparePoint(p, rows[0], 1)
+		c.Oracle = comparePoint(p, rows[0], mult)
 	}
 	emit(c)
 }
